@@ -128,7 +128,7 @@ pub struct NotifSetup {
     pub async_channel: usize,
     pub max_size: usize,
     pub handshake: Vec<u8>,
-    /// initial validation policy: 0 accept, 1 reject, 2 never answer, 3 delay 100 ms then accept
+    /// initial validation policy: 0 accept, 1 reject, 2 never answer, 3 delay 100 ms then accept, 4 accept and then stop reading the handle for 300 ms
     pub policy: u8,
 }
 
@@ -712,6 +712,12 @@ async fn node_main(
                             0 => h.send_validation_result(peer, ValidationResult::Accept),
                             1 => h.send_validation_result(peer, ValidationResult::Reject),
                             2 => {}
+                            // accept, then the user stops reading its handle for 300 ms (the stream-opened event and whatever
+                            // the remote sends right after it queue up behind the stall)
+                            4 => {
+                                h.send_validation_result(peer, ValidationResult::Accept);
+                                notif_stall_until = Some(Instant::now() + Duration::from_millis(300));
+                            }
                             _ => delayed_validation.push((Instant::now() + Duration::from_millis(100), peer)),
                         }
                     }
